@@ -78,6 +78,13 @@ class Mon:
         """Persist what has been observed so far (survives os._exit)."""
         from .core import jdump
 
+        rf = self.data.get("resume_file")
+        if rf and os.path.exists(rf) and self.flags.get("at_exit"):
+            import hashlib
+
+            self.data["resume_file_sha_at_exit"] = hashlib.sha1(
+                open(rf, "rb").read()).hexdigest()[:16]
+
         side = os.path.join(self.hdir, "monitor_flush.json")
         tmp = side + ".tmp"
         with open(tmp, "w") as f:
@@ -462,6 +469,16 @@ def install_ns(mon):
         # the run continues from here: drop what the killed process did after
         del st["shadow"][n:]
         mon.shadow({"t": "trunc", "n": n})
+        # the live set must be complete and without duplicated points
+        if not self.finalised and self.iteration > 0:
+            lp = self.live_points
+            if lp is None or lp.size != self.nlive:
+                V("resume:live-set-incomplete",
+                  f"{None if lp is None else lp.size} live points, "
+                  f"nlive={self.nlive}, iteration {self.iteration}")
+            elif len(set(row_bytes(lp))) != lp.size:
+                V("resume:live-set-has-duplicates",
+                  f"{lp.size - len(set(row_bytes(lp)))} duplicated rows")
         # internal consistency of the restored counts
         if not self.finalised:
             if len(self.state.logLs) != n + 1 or \
@@ -623,7 +640,8 @@ def check_ins_store(mon, sampler, store, name, where):
             break
     # meta proposal and weight.  After a resume without a saved density table
     # the table is re-derived from the float32 flows: float32 accuracy there.
-    tol_q = 1e-10 if where != "resume" else None
+    stale = where == "resume" or mon.flags.get("ins_logq_stale", False)
+    tol_q = 1e-10 if not stale else None
     with np.errstate(all="ignore"):
         logQ = logsumexp(log_q, b=w, axis=1)
     dq = np.abs(s["logQ"] - logQ)
@@ -659,6 +677,8 @@ def install_ins(mon):
 
     def after_update(self, _t, _r):
         mon.count("ins.iterations")
+        # logQ of every stored sample was recomputed from the current table
+        mon.flags["ins_logq_stale"] = False
         check_all(self, "iteration")
 
     wrap(ImportanceNestedSampler, "update_evidence", None, after_update)
@@ -675,6 +695,11 @@ def install_ins(mon):
             st["checked_resume"] = True
             mon.count("ins.resumes")
             mon.classes.add("resumed")
+            # without a saved density table it is re-derived from the float32
+            # flows, while the stored logQ still comes from the old table
+            # until the next iteration recomputes it
+            mon.flags["ins_logq_stale"] = not getattr(
+                self.training_samples, "save_log_q", False)
             if self.iteration > 0 and self.training_samples.samples is not \
                     None:
                 check_all(self, "resume")
@@ -1131,7 +1156,17 @@ def install_ckpt(mon):
                 f.write(json.dumps(rec) + "\n")
             mon.count("ckpt.writes")
             info["last_serial"] = st["serial"]
-        return prev_dump(obj, filename, *a, **k)
+        ret = prev_dump(obj, filename, *a, **k)
+        if isinstance(obj, ImportanceNestedSampler):
+            import hashlib
+
+            try:
+                mon.data["resume_file"] = filename
+                mon.data["resume_file_sha_last_checkpoint"] = hashlib.sha1(
+                    open(filename, "rb").read()).hexdigest()[:16]
+            except OSError:
+                pass
+        return ret
 
     base.safe_file_dump = dump
 
@@ -1181,6 +1216,15 @@ def install_ckpt(mon):
         mon.count("ckpt.resume_checks")
         if not recs:
             info["resume_without_record"] = True
+            return
+        if isinstance(sampler, NestedSampler) and \
+                recs[-1]["digest"].get("live_points") == "None" and \
+                not recs[-1]["finalised"]:
+            # checkpoint taken before the initial live points existed: the
+            # resumed run legitimately draws them (and evaluates likelihoods)
+            # before it reaches this point
+            mon.classes.add("resumed-before-live-points")
+            st["resumed_evals"] = None
             return
         d, w = sampler_digest(sampler)
         cands = list(reversed(recs))  # newest first
